@@ -1,11 +1,33 @@
 NP = "ntp_proto_h"
+_scale = ["i8", "u8", "i16", "u16", "i32", "u32", "i64", "isize"]
 PROP = dict(
-    functions=["ntp_proto::time_types::{NtpTimestamp,NtpDuration} operator impls"],
-    bounds="full 64-bit ranges",
-    outside="",
-    assumptions=[],
+    functions=[
+        "ntp_proto::time_types::NtpTimestamp::{add,add_assign,sub,sub_assign,sub<NtpTimestamp>,is_before,truncated_second_bits,from_bits,to_bits,from_seconds_nanos_since_ntp_era}",
+        "ntp_proto::time_types::NtpDuration::{add,sub,neg,abs,abs_diff,mul<i8..u32,i64,isize>,div<..>,from_seconds,from_bits_short,to_bits_short,from_bits_time32,to_bits_time32,as_seconds_nanos,from_exponent,log2}",
+        "ntp_proto::time_types::PollInterval::as_duration, FrequencyTolerance mul",
+        "statime_base::time_types::{Timestamp<TAI>,Duration} operator impls and constructors",
+    ],
+    bounds="all 64-bit timestamps/durations, all scalar multipliers of each implemented type, all finite f64 for from_seconds, all 128-bit PTP values (PTP scaling: multiplier types i8/u8/i16/u16); no loop bound needed (loop-free code)",
+    outside="to_seconds()/from_seconds() round-trip error bound (f64 division by 2^32-1: see c32_roundtrip harness bounds); PTP scaling by 32/64-bit multipliers (128x64-bit symbolic multiplication does not finish); division by zero (documented precondition: divisor != 0); Debug formatting",
+    assumptions=["nanos < 1e9 for the seconds/nanos constructors (documented precondition, debug_assert in the code)", "divisor != 0"],
     harnesses=[
-        H(NP, "c32", "c32_ts_sub_add", "timestamp difference is the shortest signed difference and adds back"),
-        H(NP, "c32", "c32_dur_neg_abs", "negation/abs saturate"),
+        H(NP, "c32", "c32_ts_sub_add", "timestamp difference is the shortest signed difference across eras and adds back"),
+        H(NP, "c32", "c32_ts_add_dur", "timestamp +/- duration wraps modulo 2^64"),
+        H(NP, "c32", "c32_ts_bits_truncate", "timestamp wire round trip, truncation, constructor"),
+        H(NP, "c32", "c32_dur_add_sub", "duration add/sub saturate (i128 reference)"),
+        H(NP, "c32", "c32_dur_neg_abs", "negation/abs/abs_diff saturate and never panic"),
+    ] + [H(NP, "c32", "c32_dur_scale_" + t, "duration * and / %s saturate, never panic" % t, tier=("quick" if t in ("i8", "u8", "i16", "u16") else "thorough")) for t in _scale] + [
+        H(NP, "c32", "c32_dur_freq_tolerance", "duration * FrequencyTolerance", tier="thorough"),
+        H(NP, "c32", "c32_from_seconds_sign_saturation", "from_seconds preserves sign and saturates for all finite f64"),
+        H(NP, "c32", "c32_from_seconds_monotone_units", "from_seconds keeps integer seconds exact"),
+        H(NP, "c32", "c32_wire_short_time32", "short and time32 wire encodings round-trip within one unit, saturate"),
+        H(NP, "c32", "c32_dur_misc", "as_seconds_nanos, from_exponent, log2, poll interval duration"),
+        H(NP, "c32", "c32_ptp_ts", "PTP timestamp wrap laws (128-bit)"),
+        H(NP, "c32", "c32_ptp_dur_add_sub", "PTP duration saturating add/sub"),
+        H(NP, "c32", "c32_ptp_scale_i8", "PTP duration * / i8"),
+        H(NP, "c32", "c32_ptp_scale_u8", "PTP duration * / u8"),
+        H(NP, "c32", "c32_ptp_scale_i16", "PTP duration * / i16", tier="thorough"),
+        H(NP, "c32", "c32_ptp_scale_u16", "PTP duration * / u16", tier="thorough"),
+        H(NP, "c32", "c32_ptp_ctor", "PTP constructors"),
     ],
 )
